@@ -1607,6 +1607,10 @@ impl<'a> Sim<'a> {
 				let mut trunk = Branch { tip: gen, policy: Policy::Main, class: "single", fat: 0 };
 				self.advance_to(&mut trunk, t);
 				let mut a = Branch { tip: trunk.tip, policy: Policy::Main, class: "single", fat: fat_a };
+				// an NRD kernel instance on the body chain, so that the pool's relative-height decision can be observed too
+				if t + la >= NRD_FIRST_HEIGHT {
+					self.run_events(&mut a, &[Ev { h: NRD_FIRST_HEIGHT, dec: None, tx: TxSpec::Nrd(2) }]);
+				}
 				self.advance_to(&mut a, t + la);
 				if !self.ok() {
 					return;
@@ -1651,6 +1655,9 @@ impl<'a> Sim<'a> {
 				}
 				self.run.count("pool_header_fork_setups", 1);
 				self.pool_maturity("pool_header_fork");
+				// lock heights and relative locks are decided against the next height of the BODY chain as well
+				self.pool_lock("pool_header_fork");
+				self.pool_nrd("pool_header_fork");
 				// the chain itself (block at the next height) still decides by the rule
 				let next = self.height(&a.tip) + 1;
 				self.run_events(
@@ -1797,18 +1804,18 @@ fn main() {
 				"maturity",
 				vec![
 					"single", "fork_trunk", "fork_branch", "reorg_trigger", "reapplied", "rewound",
-					"pool", "pool_after_reorg",
+					"pool", "pool_after_reorg", "pool_header_fork",
 				],
 			),
 			(
 				"lock",
-				vec!["single", "fork", "reorg_trigger", "reapplied", "rewound", "pool", "pool_after_reorg"],
+				vec!["single", "fork", "reorg_trigger", "reapplied", "rewound", "pool", "pool_after_reorg", "pool_header_fork"],
 			),
 			(
 				"nrd",
 				vec![
 					"single", "fork_trunk", "fork_branch", "cross_fork", "reorg_trigger", "reapplied",
-					"rewound", "pool", "pool_after_reorg",
+					"rewound", "pool", "pool_after_reorg", "pool_header_fork",
 				],
 			),
 			("nrd_hf3", vec!["single", "fork"]),
